@@ -25,6 +25,32 @@ pub trait Engine: Sync + Send {
     fn eval(&self, bytes: &[u8], trace: bool) -> Eval;
 }
 
+/// Several engines behind one property: the first byte of a case selects the
+/// engine (by weight), the rest is that engine's input.
+pub struct MultiEngine {
+    pub parts: Vec<(u32, Arc<dyn Engine>)>,
+    pub name: &'static str,
+}
+
+impl Engine for MultiEngine {
+    fn name(&self) -> &'static str {
+        self.name
+    }
+    fn eval(&self, bytes: &[u8], trace: bool) -> Eval {
+        let total: u32 = self.parts.iter().map(|p| p.0).sum();
+        let b = bytes.first().cloned().unwrap_or(0) as u32;
+        let mut r = (b * total) >> 8;
+        let rest = if bytes.is_empty() { bytes } else { &bytes[1..] };
+        for (w, e) in &self.parts {
+            if r < *w {
+                return e.eval(rest, trace);
+            }
+            r -= *w;
+        }
+        self.parts.last().unwrap().1.eval(rest, trace)
+    }
+}
+
 pub fn hash_of<T: Hash>(t: &T) -> u64 {
     let mut h = std::collections::hash_map::DefaultHasher::new();
     t.hash(&mut h);
